@@ -120,6 +120,71 @@ Section Chart.
         rs_finish (go true start items)
     end.
 
+  (* ---- lm/partial.hh --------------------------------------------------------------------------- *)
+  Record extend_ret := { x_adjust : Z; x_make_full : bool; x_next_use : nat }.
+
+  (* first loop of ExtendLoop (write mode): returns (remaining pointers, written pointers, value, backoff_in) *)
+  Fixpoint ext_write (add : list word) (add_length : nat) (ptrs : list key) (written : list key)
+           (adjust : Z) (next_use : nat) (back : list boval)
+    : list key * list key * Z * bool * nat * list boval :=
+    match ptrs with
+    | [] => ([], written, adjust, false, next_use, back)
+    | p :: rest =>
+        let '(ret, back_out, nu) := extend_left N_order T (firstn next_use add) back p in
+        if r_indep ret then (rest, written, adjust + r_prob ret, true, nu, back_out)
+        else
+          let written' := written ++ [r_ext ret] in
+          if negb (Nat.eqb nu add_length) then (rest, written', adjust + r_rest ret, true, nu, back_out)
+          else ext_write add add_length rest written' (adjust + r_rest ret) nu back_out
+    end.
+
+  (* second loop: using some of the new context, left state already complete *)
+  Fixpoint ext_full (add : list word) (ptrs : list key) (adjust : Z) (next_use : nat) (back : list boval)
+    : list key * Z * nat * list boval :=
+    match ptrs with
+    | [] => ([], adjust, next_use, back)
+    | p :: rest =>
+        if Nat.eqb next_use 0 then (ptrs, adjust, next_use, back)
+        else
+          let '(ret, back_out, nu) := extend_left N_order T (firstn next_use add) back p in
+          ext_full add rest (adjust + r_prob ret) nu back_out
+    end.
+
+  (* ExtendLoop: returns (value, pointers written, backoff_write = first next_use of the final backoff_in) *)
+  Definition extend_loop (add : list word) (backoff_start : list boval) (ptrs : list key) (write : bool)
+    : extend_ret * list key * list boval :=
+    let add_length := length add in
+    let back0 := firstn add_length backoff_start in
+    let '(rest1, written, adj1, mf, nu1, back1) :=
+      if write then ext_write add add_length ptrs [] 0 add_length back0
+      else (ptrs, [], 0, false, add_length, back0) in
+    let '(rest2, adj2, nu2, back2) := ext_full add rest1 adj1 nu1 back1 in
+    let adj3 := adj2 + un_rest T different_rest rest2 in
+    ({| x_adjust := adj3; x_make_full := mf; x_next_use := nu2 |}, written, firstn nu2 back2).
+
+  (* RevealBefore(reveal, seen, reveal_full, left, right) -> (adjust, left', right') *)
+  Definition reveal_before (reveal : state) (seen : nat) (reveal_full : bool) (l : left) (r : state) : Z * left * state :=
+    let '(v, written, bw) := extend_loop (skipn seen (s_words reveal)) (skipn seen (s_bo reveal)) (l_ptrs l) (negb reveal_full) in
+    let new_ptrs := if reveal_full then [] else written in
+    let make_full := if reveal_full then true else orb (x_make_full v) (Nat.eqb (length written) (N_order - 1)) in
+    if l_full l then
+      (x_adjust v + sum_bo bw, {| l_ptrs := new_ptrs; l_full := true |}, r)
+    else
+      let r' := {| s_words := s_words r ++ firstn (x_next_use v) (skipn seen (s_words reveal)); s_bo := s_bo r ++ bw |} in
+      (x_adjust v, {| l_ptrs := new_ptrs; l_full := orb make_full (Nat.eqb (length (s_words r')) (N_order - 1)) |}, r').
+
+  (* RevealAfter(left, right, reveal, seen) -> (adjust, left', right') *)
+  Definition reveal_after (l : left) (r : state) (reveal : left) (seen : nat) : Z * left * state :=
+    let '(v, written, bw) := extend_loop (s_words r) (s_bo r) (skipn seen (l_ptrs reveal)) (negb (l_full l)) in
+    let '(adjust, r', make_full) :=
+      if l_full reveal then (x_adjust v + sum_bo bw, null_state, true)
+      else (x_adjust v, {| s_words := firstn (x_next_use v) (s_words r); s_bo := bw |},
+            orb (x_make_full v) (Nat.eqb (x_next_use v) (N_order - 1))) in
+    let l' := if l_full l then l
+              else let ptrs := l_ptrs l ++ written in
+                   {| l_ptrs := ptrs; l_full := orb make_full (Nat.eqb (length ptrs) (N_order - 1)) |} in
+    (adjust, l', r').
+
   Fixpoint yield (t : tree) : list word :=
     match t with
     | Rule _ _ items =>
